@@ -51,6 +51,15 @@ def generate(R, tier, focus):
                 evs.append(gen.gen_event(R, inner['region'], inner['mags'], eid='in%d' % k)[0])
             R.shuffle(evs)
             inner['obs'] = [{'events': evs, 'edge_world': True}]
+        if inner['region']['kind'] == 'quad' and R.random() < 0.35:
+            # observed events exactly on the meridian shared by two tiles (tile bounds are dyadic fractions of 360: exact)
+            nm_ = len(inner['mags']['edges'])
+            for k in range(R.randint(1, 3)):
+                b = gen.quadkey_bounds(R.choice(inner['region']['quadkeys']))
+                inner['obs'][0]['events'].insert(
+                    R.randint(0, len(inner['obs'][0]['events'])),
+                    ['qedge%d' % k, gen.T0_MS + 7000 + k, gen.dec(b[1] + (b[3] - b[1]) * R.choice(gen.FRACS), 6), b[0], 5.0,
+                     gen.mag_in_bin(R, inner['mags'], R.randrange(nm_))])
         channel = R.choice(('events', 'cells', 'cells'))
         if inner['obs'][0].get('edge_world'):
             channel = 'events'
@@ -60,7 +69,17 @@ def generate(R, tier, focus):
         nt = R.randint(1, 5)
         tests = [{'test': R.choice(GRID_TESTS), 'seed': R.choice((0, 1, 7, R.randint(2, 10 ** 6))), 'nsim': R.randint(1, 8)}
                  for _ in range(nt)]
-        if channel == 'cells' and gen.n_cells(inner['region']) > 1 and R.random() < 0.15:
+        if inner['region']['kind'] == 'cart' and channel != 'bench_cells' and gen.n_cells(inner['region']) > 2 \
+                and not inner['obs'][0].get('edge_world') and R.random() < 0.25:
+            # cells switched off (flag 0 in a forecast file, mask in memory): not part of the testing region; the observed
+            # catalog is cut to the region first, as the usual workflow does
+            m = [0 if R.random() < 0.3 else 1 for _ in inner['region']['origins']]
+            if not any(m):
+                m[0] = 1
+            if all(m):
+                m[R.randrange(len(m))] = 0
+            inner['region']['mask'] = m
+        if channel == 'cells' and gen.n_cells(inner['region']) > 1 and R.random() < 0.15 and not inner['region'].get('mask'):
             # only the benchmark forecast of the paired T-test lists its cells (and rates) in another order
             channel = 'bench_cells'
             tests = [{'test': 'T', 'seed': 1, 'nsim': 1}]
@@ -75,6 +94,9 @@ def generate(R, tier, focus):
         nt = R.randint(1, 5)
         tests = [{'test': R.choice(testable), 'seed': R.choice((0, 1, 7, R.randint(2, 10 ** 6))), 'obs': R.randrange(len(inner['obs']))}
                  for _ in range(nt)]
+    for t in tests:
+        # the seed's integer type is a delivery detail as well
+        t['seed_type'] = R.choice(('int', 'int', 'int', 'int64', 'uint32'))
     cart = inner['region']['kind'] == 'cart'
     extra = {
         # events channel: re-order the SAME catalog object in place after it was evaluated (per-object caches)
@@ -120,6 +142,8 @@ def permuted(scn):
         P.shuffle(perm)
         if w['region']['kind'] == 'cart':
             w['region']['origins'] = [w['region']['origins'][i] for i in perm]
+            if w['region'].get('mask'):
+                w['region']['mask'] = [w['region']['mask'][i] for i in perm]
         else:
             w['region']['quadkeys'] = [w['region']['quadkeys'][i] for i in perm]
         if 'rates' in w:
@@ -160,12 +184,20 @@ def write_world_dat(path, world):
     dm = world['mags']['dm']
     dh = world['region']['dh']
     lines = []
-    for o, row in zip(world['region']['origins'], world['rates']):
+    mask = world['region'].get('mask') or [1] * len(world['region']['origins'])
+    for o, row, fl in zip(world['region']['origins'], world['rates'], mask):
         for k, m0 in enumerate(world['mags']['edges']):
-            lines.append('%r %r %r %r 0.0 30.0 %r %r %r 1' % (o[0], gen.dec(o[0] + dh), o[1], gen.dec(o[1] + dh), m0,
-                                                            gen.dec(m0 + dm, 4), row[k]))
+            lines.append('%r %r %r %r 0.0 30.0 %r %r %r %d' % (o[0], gen.dec(o[0] + dh), o[1], gen.dec(o[1] + dh), m0,
+                                                             gen.dec(m0 + dm, 4), row[k], fl))
     with open(path, 'w') as f:
         f.write('\n'.join(lines) + '\n')
+
+
+def _inside(events, region):
+    m = region.get('mask')
+    if not m:
+        return events
+    return [e for e in events if m[fcsim.cell_of(e, region)]]
 
 
 def make_fc(world, env):
@@ -181,6 +213,8 @@ def make_fc(world, env):
 
 def make_obs(events, fc, env):
     cat = build.make_catalog(events, region=fc.region, name='obs')
+    if env.get('masked'):
+        cat.filter_spatial(fc.region, in_place=True)
     if env.get('obs_via_json'):
         import csep
         env['n_files'] = env.get('n_files', 0) + 1
@@ -249,6 +283,9 @@ def _execute(scn, ctx, store, rng):
         wb = FcWorld(base, store, fname='base')
         wp = FcWorld(perm, store, fname='perm')
     env = {'store': store, 'delivery': scn.get('delivery', 'memory'), 'obs_via_json': scn.get('obs_via_json', False)}
+    if scn['kind'] == 'grid' and base['region'].get('mask'):
+        env['masked'] = True
+        ctx.count('cfg:switched_off_cells')
     if env['delivery'] == 'file':
         ctx.count('cfg:forecast_delivered_as_file')
     if env['obs_via_json']:
@@ -273,7 +310,8 @@ def _execute(scn, ctx, store, rng):
             rng.mark(budget=rngsim.HARD_CAP)
             if scn['kind'] == 'grid':
                 if test in ('BS', 'BCL', 'BRIER'):
-                    counts = fcsim.grid_counts(world['obs'][0]['events'], world['region'], world['mags'])
+                    counts = fcsim.grid_counts(_inside(world['obs'][0]['events'], world['region']), world['region'],
+                                               world['mags'])
                     fr = rngsim.flat_rates(test, world['rates'])
                     fcn = rngsim.flat_counts(test, counts)
                     if int((fcn > 0).sum()) > int((fr > 0).sum()) or \
@@ -283,6 +321,10 @@ def _execute(scn, ctx, store, rng):
                 if objs is not None and which == 'perm' and 'cat' in objs:
                     if ch == 'events':
                         idx = info['event_perm'].get(0, [])
+                        if len(idx) != len(objs['cat'].catalog):
+                            # the catalog was cut to the region: some other permutation of what is left
+                            idx = list(range(len(objs['cat'].catalog)))
+                            random.Random(scn['perm_seed']).shuffle(idx)
                         if idx and scn.get('in_place_array'):
                             arr = objs['cat'].catalog            # shuffle the stored array itself (no setter involved)
                             arr[:] = arr[numpy.array(idx, dtype=int)]
@@ -292,7 +334,8 @@ def _execute(scn, ctx, store, rng):
                         # cells channel: the same catalog object is re-bound to the forecast with permuted cells
                         objs['fc'] = make_fc(world, env)
                         objs['cat'].region = objs['fc'].region
-                r = call(run_grid, test, world, world['obs'][0]['events'], t['seed'], t['nsim'], env, objs)
+                r = call(run_grid, test, world, world['obs'][0]['events'], rngsim.typed_seed(t['seed'], t.get('seed_type')),
+                         t['nsim'], env, objs)
             else:
                 fw = wb if which == 'base' else wp
                 fc = fw.new_forecast()
@@ -300,7 +343,7 @@ def _execute(scn, ctx, store, rng):
                 if scn.get('obs_filtered'):
                     obs = obs.filter(['origin_time >= %d' % world['start_ms'], 'origin_time < %d' % world['end_ms'],
                                       'magnitude >= %r' % world['mags']['edges'][0]])
-                r = call(run_cat_test_fc, test, fc, obs, t['seed'])
+                r = call(run_cat_test_fc, test, fc, obs, rngsim.typed_seed(t['seed'], t.get('seed_type')))
             outs.append((r, [(c[0], hexf(c[2])) for c in rng.calls if c[0] != 'seed']))
         if outs is None:
             ctx.count('precond:skipped')
